@@ -31,7 +31,9 @@ META = {
                "every length (quick: a few lengths)", "one fault of each kind at a symbolic write step",
                "lock byte initially 0x55 / 0xFF / symbolic", "force_unlock and ignore_feedback both ways",
                "six synthetic values (declared by the harness through the library's metaclass in a lockable "
-               "bank) whose locations mix writable, read-only, untyped and lockable memory types"],
+               "bank) whose locations mix writable, read-only, untyped and lockable memory types, and two whose "
+               "locations are declared in another order than ascending address",
+               "write(value, force_unlock / ignore_feedback) for strings and numbers against a unit that stays locked"],
     "stubs": ["isinstance/int/bytes shims"],
     "outside": ["several faults in one write", "units violating 9.10 in other ways",
                 "NVM_RW_P (vendor-protected) locations - none declared"],
